@@ -182,3 +182,5 @@ func vAllocated() uint64 {
 	runtime.ReadMemStats(&ms)
 	return ms.TotalAlloc
 }
+
+func vDumpThreads() {}
